@@ -179,7 +179,7 @@ func c12Execution(w *core.WorkerCtx, net *vnet.Net, t topo, rng *rand.Rand, adv,
 	}
 	desc := fmt.Sprintf("topology %s adversary at %d origin %d item %s list class %s dropOnly=%v", t.name, adv, origin, kind, class, dropOnly)
 	w.Mark("%s", desc)
-	net.WaitStable(6)
+	net.WaitSent()
 	// deliver to the adversary first whatever is addressed to it
 	var got *vnet.Msg
 	for _, m := range net.Pending() {
@@ -352,7 +352,7 @@ func c12Unit(w *core.WorkerCtx, rng *rand.Rand, rounds int) {
 			// verifies them - rightly - for that item. They are what the adversary replays on the next item.
 			net.ResetExecution()
 			if wa, err := c11Originate(net, origin, "vrx", 900000+i); err == nil {
-				net.WaitStable(6)
+				net.WaitSent()
 				for _, m := range net.Pending() {
 					if m.To == adv {
 						net.Deliver(m)
@@ -383,7 +383,7 @@ func c12Unit(w *core.WorkerCtx, rng *rand.Rand, rounds int) {
 		if err != nil {
 			continue
 		}
-		net.WaitStable(6)
+		net.WaitSent()
 		var got *vnet.Msg
 		for _, m := range net.Pending() {
 			if m.To == adv {
@@ -523,7 +523,7 @@ func c12PullHarvest(w *core.WorkerCtx, rng *rand.Rand, rounds int) {
 		}
 		desc := fmt.Sprintf("pull-harvest round %d: M baits V to sign the hash of item %s, then lists V when handing the item to N", i, ledger.Hex(it.hash))
 		w.Mark("%s", desc)
-		net.WaitStable(6)
+		net.WaitSent()
 		var toN, got *vnet.Msg
 		for _, m := range net.Pending() {
 			if m.To == M {
@@ -630,7 +630,7 @@ func c12Joining(w *core.WorkerCtx, rng *rand.Rand, rounds int) {
 		variant := i % 3
 		desc := fmt.Sprintf("joining round %d: H joins R while R admits item %s that M relayed with a forged entry of H (variant %d)", i, ledger.Hex(it.hash), variant)
 		w.Mark("%s", desc)
-		net.WaitStable(6)
+		net.WaitSent()
 		var got *vnet.Msg
 		for _, m := range net.Pending() {
 			if m.To == M {
